@@ -18,7 +18,7 @@ func TestC07(t *testing.T) {
 		mc := NewMachine("C07", sch, column.Options{})
 		defer func() { mc.Close() }()
 		defer mc.Guard(t)
-		cfg := TxnCfg{Prop: "C07", MaxSteps: 10, Deletes: true, Inserts: true, Merges: true, OwnUpdates: true, Direct: true,
+		cfg := TxnCfg{Prop: "C07", MaxSteps: 10, Peeks: true, Deletes: true, Inserts: true, Merges: true, OwnUpdates: true, Direct: true,
 			NoStoreOnDel: KFActive("f11-store-and-delete-same-txn"), NoOpAfterLenMerge: KFActive("f15-difflen-merge-reorder")}
 		restores, mutatedAfterRestore, richSnapshot := 0, false, false
 		computed := 0
